@@ -94,19 +94,28 @@ Definition fault_at (k : nat) : nat -> bool := Nat.eqb k.
 Definition fault_from (k : nat) : nat -> bool := fun n => Nat.leb k n.
 
 (* Component.recv: no stream management, synchronous routing; on error the state
-   change comes before the error callback. *)
-Fixpoint precv (items : list item) : list action :=
+   change comes before the error callback; a stream closed by the server is a disconnection like any
+   other (no error).  A receiver serves ONE connection (the transport it was started with); [fin]: what
+   happens when the items are used up. *)
+Definition preport_loss : list action := [AEvDisconnected 0; AErrCall; AQuit].
+(* a stream error whose handler has replaced the component's transport (Disconnect and Resume from inside the
+   handler): as for the client, the loop leaves the new connection alone and returns *)
+Definition phand_over (tag : N) : list action :=
+  [ARouteSync (IStreamError tag); AEvStreamError; AErrCall; AQuit].
+Fixpoint precv_k (fin : list action) (items : list item) : list action :=
   match items with
-  | [] => [AEvDisconnected 0; AErrCall; AQuit]
+  | [] => fin
   | i :: rest =>
       match i with
-      | IBad => [AEvDisconnected 0; AErrCall; AQuit]
+      | IBad => preport_loss
       | IStreamError _ =>
-          ARouteSync i :: AEvStreamError :: AErrCall :: ADisconnectCall :: precv rest
-      | IClose => [ARecvStreamClose; AQuit]
-      | _ => ARouteSync i :: precv rest
+          ARouteSync i :: AEvStreamError :: AErrCall :: ADisconnectCall :: precv_k fin rest
+      | IClose => [ARecvStreamClose; AEvDisconnected 0; AQuit]
+      | _ => ARouteSync i :: precv_k fin rest
       end
   end.
+Definition precv : list item -> list action := precv_k preport_loss.
+Definition precv_handover (tag : N) : list item -> list action := precv_k (phand_over tag).
 
 (* ---- declarative side: what "completely received before the loop ended" means ---- *)
 (* elements at which the loops stop WITHOUT processing them *)
